@@ -44,7 +44,7 @@ MODULES = {
     'C06': ['contracts.wrappers', 'contracts.pit_graph', 'contracts.whole_supernet'],
     'C18': ['contracts.wrappers', 'contracts.pit_layers', 'contracts.mps_layers', 'contracts.whole_pit', 'contracts.whole_supernet', 'contracts.whole_mps'],
     'C09': ['contracts.c09', 'contracts.pit_layers', 'contracts.pit_graph', 'contracts.whole_pit', 'contracts.whole_mps'],
-    'C14': ['contracts.c14'],
+    'C14': ['contracts.c14', 'contracts.c14_sym'],
     'C20': ['contracts.c20'],
     'C07': ['contracts.c07', 'contracts.wrappers', 'contracts.whole_pit', 'contracts.whole_supernet', 'contracts.whole_mps'],
 }
